@@ -138,6 +138,43 @@ func c04Spaces(c *fw.Ctx) {
 				})
 			})
 		})
+	c.Space("escape-heavy", "names whose presentation form is far longer than their wire form (a 63-octet label of octet 200 → 252 characters, of backslashes → 126, of dots → 126; alone, under 'www', and above 'example'), each used as question name, owner and RDATA name of every name-bearing type plus an NS record repeating it: compression must stay transparent; non-trivial: ≥1 pointer", true,
+		func(emit func(func(*fw.R))) {
+			var heavy [][][]byte
+			for _, oct := range []byte{200, '\\', '.', ' ', 0} {
+				l := bytes.Repeat([]byte{oct}, 63)
+				heavy = append(heavy, [][]byte{l, []byte("example")}, [][]byte{[]byte("www"), l, []byte("example")}, [][]byte{l, l, []byte("example")}, [][]byte{[]byte("a"), l, l, l[:59]})
+			}
+			for _, t := range nameTypes() {
+				for hi, h := range heavy {
+					for variant := 0; variant < 3; variant++ {
+						t, h, hi, variant := t, h, hi, variant
+						emit(func(r *fw.R) {
+							m := &wire.Msg{ID: 5, Flags: 0x8400}
+							other := heavy[(hi+1)%len(heavy)]
+							switch variant {
+							case 0: // the same name everywhere
+								m.Q = []wire.Question{{Name: h, Type: t, Class: 1}}
+								m.Sec[0] = []wire.RR{mkRR(t, h, h, h)}
+								m.Sec[1] = []wire.RR{mkRR(2, h, h)}
+							case 1: // suffix written first, the long name later
+								m.Q = []wire.Question{{Name: h[1:], Type: t, Class: 1}}
+								m.Sec[0] = []wire.RR{mkRR(t, h, h[1:], h)}
+								m.Sec[1] = []wire.RR{mkRR(2, h[1:], h)}
+							case 2: // two different heavy names sharing only "example"
+								m.Q = []wire.Question{{Name: h, Type: t, Class: 1}}
+								m.Sec[0] = []wire.RR{mkRR(t, other, h, other)}
+								m.Sec[2] = []wire.RR{mkRR(5, h, other)}
+							}
+							if rn.WireLen(h) > 255 || rn.WireLen(other) > 255 {
+								return
+							}
+							c04Check(r, m)
+						})
+					}
+				}
+			}
+		})
 	c.Space("accept-pointers", "the same 'pairs' messages encoded by the reference encoder with every name compressed (also in RDATA of non-RFC-1035 types, HIP servers, IPSECKEY/AMTRELAY gateways): Unpack must accept and yield the same names; non-trivial: ≥1 pointer", true,
 		func(emit func(func(*fw.R))) {
 			genPairs(min(nU, 7), func(m *wire.Msg) {
